@@ -267,6 +267,9 @@ func c14Run(u *vfUnit) {
 			continue
 		}
 		resp := rs.R.All()[min(base, rs.R.Count()):]
+		if !eofAfterBurst && len(resp) < len(burst) {
+			u.Violation("burst-responses-missing:"+kind.String(), fmt.Sprintf("%s: the server ended the session after %d of %d responses although every request of the burst was well-formed", label, len(resp), len(burst)), witness)
+		}
 		for i, body := range resp {
 			if i >= len(burst) {
 				break
